@@ -848,10 +848,12 @@ pub fn small_case(eps: Vec<EpSpec>) -> Case {
         paths.push(format!("/{}", x));
         for y in alpha {
             paths.push(format!("/{}/{}", x, y));
-            for z in alpha {
-                paths.push(format!("/{}/{}/{}", x, y, z));
-            }
         }
+    }
+    // depth 3: templates have depth <= 2, so a third segment matters only
+    // under a wildcard and for "nothing matches"
+    for p3 in ["/a/a/a", "/a/b/c", "/b/a/b", "/c/c/c", "/a/c/b", "/b/b/a"] {
+        paths.push(p3.to_string());
     }
     Case {
         chain: vec!["1.0.0".into(), "2.0.0".into(), "3.0.0".into()],
